@@ -11,7 +11,8 @@ import os
 import re
 import shutil
 
-WAVES = [("/tmp/seed", "seed", ""), ("/tmp/seed2", "seed2", "-2"), ("/tmp/seed3", "seed3", "-3"), ("/tmp/seed4", "seed4", "-4")]
+WAVES = [("/tmp/seed", "seed", ""), ("/tmp/seed2", "seed2", "-2"), ("/tmp/seed3", "seed3", "-3"), ("/tmp/seed4", "seed4", "-4"),
+         ("/tmp/seed5", "seed5", "-5")]
 # changes that are caught by the check of another property (the other check's id)
 CAUGHT_BY = {}
 OUT = "/verif/seeded"
@@ -84,6 +85,27 @@ NOTES = {
     ("seed4", "C38"): "caught after the second BFS with names the id function escapes was added",
     ("seed4", "C40"): "caught after the oracle 'legal requests must not put the engine into its error state, also in serial orders' was added",
     ("seed4", "C41"): "caught after the three-macro family (cycle closed by a later call of a body) was added",
+    ("seed5", "C01"): "caught after rejected edits while the run stands in its error state (methods with a failing instruction) were added; error state and Method Status are part of the tick-for-tick comparison",
+    ("seed5", "C02"): "caught after the family 'macro as the last scope of the text with trailing whitespace, called from a Watch' was added",
+    ("seed5", "C03"): "caught after the independent upper bound (lateness) for top-level thresholds after an inner scope was added",
+    ("seed5", "C04"): "caught after the family 'Watch/Alarm whose body is End block, followed by a sibling Watch/Alarm of the same block' was added ('runs' now means a body line executes)",
+    ("seed5", "C07"): "caught after Process Time was judged by the control flags (paused/holding) as well as by System State",
+    ("seed5", "C09"): "caught after an output register whose tag declares no direction (Out4) was added to the harness UOD",
+    ("seed5", "C10"): "caught after UOD commands started by a user's control request (no method line) running when Stop/Restart begins were added",
+    ("seed5", "C13"): "caught after two-line methods with the user resuming (Unpause at ticks 5,7,9,11, no edit) after each error pause were added: a second failing line must be reported failed too",
+    ("seed5", "C15"): "caught after code injections (Mark / Inst+Mark / Long) were added to the deviations and injected instructions to the 'completed instruction appears as completed item' oracle",
+    ("seed5", "C18"): "caught after unit-less values ending in 2 or 3 (12, 0.3, 23, -1.2) were added",
+    ("seed5", "C22"): "caught after an item ending in a backslash was added to the unit/option items",
+    ("seed5", "C23"): "caught after a register that is read on its own (not part of the batch) was added as a second exploration",
+    ("seed5", "C24"): "caught after a successful batch that does not command the buffered register (wb_new_one_ok) was added to the single-write exploration",
+    ("seed5", "C25"): "caught after read - write - read sequences (incl. writing 'no value') were added to part C",
+    ("seed5", "C26"): "caught after non-finite floats were asserted over serialize -> JSON text -> deserialize (over the RPC wire they are lost on the unchanged tree too and stay recorded only)",
+    ("seed5", "C31"): "caught after saves that carry the same text as each other / as the stored method were added",
+    ("seed5", "C35"): "caught after the entry times were moved to epoch scale, half a second apart",
+    ("seed5", "C36"): "caught after a uod tag whose value changes inside its connection-status event hook was added to the connection family",
+    ("seed5", "C37"): "caught after part B was added: the handling of one disconnect explored callback by callback with a slow/broken subscriber of the active-users topics and an engine registering after every number of callbacks",
+    ("seed5", "C38"): "caught after names built from tokens with percent escapes (%41, %2F, %2f, %25) were added",
+    ("seed5", "C41"): "caught after the family 'macro whose body contains a Block, called two or three times' was added",
 }
 
 
@@ -122,7 +144,7 @@ def main():
             shutil.copy(f"{src}/{pid}.patch.diff", os.path.join(d, "patch.diff"))
             shutil.copy(f"{src}/{pid}.demo_test.py", os.path.join(d, "demo_test.py"))
             out_meta = {
-                "property": pid, "wave": {"seed": 1, "seed2": 2, "seed3": 3, "seed4": 4}[wave], "caught_by_check": other or pid,
+                "property": pid, "wave": {"seed": 1, "seed2": 2, "seed3": 3, "seed4": 4, "seed5": 5}[wave], "caught_by_check": other or pid,
                 "check_on_final_head": head_line[:600],
                 "summary": meta.get("summary"), "files": meta.get("files"),
                 "needs_to_manifest": meta.get("needs_to_manifest"),
@@ -152,11 +174,11 @@ def main():
                 "Each directory holds `patch.diff` (apply with `git -C /repo apply`, undo with `git -C /repo checkout -- .`), the sub-agent's\n"
                 "demonstration `demo_test.py` (run as a plain script from the patched tree: passes without, fails with the change) and\n"
                 "`meta.json` (what it needs to manifest, what the sub-agent ran, what I ran to confirm it, which signatures the check reports,\n"
-                "and what had to be strengthened before the check caught it).  `Cxx` = first wave, `Cxx-2` = second wave, `Cxx-3` = third wave, `Cxx-4` = fourth wave.  None of these\n"
+                "and what had to be strengthened before the check caught it).  `Cxx` = first wave, `Cxx-2` = second wave, `Cxx-3` = third wave, `Cxx-4` = fourth wave, `Cxx-5` = fifth wave.  None of these\n"
                 "changes is committed to `/repo`.\n\n"
                 "| seed | check | file(s) | change | signatures reported (first 3) | strengthened first |\n|---|---|---|---|---|---|\n")
         for name, pid, files, summary, sigs in rows:
-            wave = "seed4" if name.endswith("-4") else "seed3" if name.endswith("-3") else "seed2" if name.endswith("-2") else "seed"
+            wave = "seed5" if name.endswith("-5") else "seed4" if name.endswith("-4") else "seed3" if name.endswith("-3") else "seed2" if name.endswith("-2") else "seed"
             note = NOTES.get((wave, pid), "") or ("" if summary.startswith("NOT") or summary.startswith("not") else "no (caught by the first version)")
             f.write(f"| {name} | {pid} | {files} | {summary.replace('|', '/')} | {sigs.replace('|', '/')} | {note} |\n")
     kept = sum(1 for r in rows if not r[3].startswith(("NOT", "not")))
